@@ -411,12 +411,81 @@ def affine_vs_iso(ctx, name, m, rng):
                     _check(ctx, 'affine_iso', key, np.abs(a - b).max() / (1 + np.abs(a).max()), d2)
 
 
+def mixed_cells_witness(ctx):
+    """deterministic witness, first in every tier: structured quadrilateral / hexahedral grids in which SOME cells are strongly
+    distorted (one interior node moved by 35% of the cell size) and the others stay rectangles, queried in ONE call (tind None and
+    explicit subsets mixing both kinds, several points per cell): invF(F(X)) == X, and the reference points FacetBasis /
+    InteriorFacetBasis computes (invF of the facet map) reproduce the physical points from both sides.  A Newton iteration that
+    stops as soon as the affine cells have converged is wrong exactly here."""
+    import skfem as fe
+    cases = []
+    mq = fe.MeshQuad.init_tensor(np.linspace(0, 1, 4), np.linspace(0, 1, 4))
+    p = mq.p.copy()
+    k = int(np.argmin(np.abs(p[0] - 1 / 3) + np.abs(p[1] - 1 / 3)))
+    p[:, k] += 0.35 / 3 * np.array([1.0, 0.6])
+    cases.append(('quad', fe.MeshQuad(p, mq.t), fe.ElementQuad1()))
+    mh = fe.MeshHex.init_tensor(np.linspace(0, 1, 4), np.linspace(0, 1, 3), np.linspace(0, 1, 3))
+    p = mh.p.copy()
+    k = int(np.argmin(np.abs(p[0] - 1 / 3) + np.abs(p[1] - 0.5) + np.abs(p[2] - 0.5)))
+    p[:, k] += 0.35 / 3 * np.array([1.0, 0.7, -0.5])
+    cases.append(('hex', fe.MeshHex(p, mh.t), fe.ElementHex1()))
+    for name, m, elem in cases:
+        dim, nt = m.dim(), m.t.shape[1]
+        mp = m.mapping()
+        g1 = np.array([0.15, 0.5, 0.85])
+        X = np.array(np.meshgrid(*([g1] * dim), indexing='ij')).reshape(dim, -1)
+        detc = mp.detDF(X)
+        distorted = np.nonzero(np.ptp(detc, axis=1) > 1e-9 * np.abs(detc).max())[0]
+        straight = np.setdiff1d(np.arange(nt), distorted)
+        desc = {'mesh': name, 'p': m.p.tolist(), 't': m.t.tolist(), 'distorted_cells': distorted.tolist(), 'rectangular_cells': straight.tolist()}
+        if len(distorted) == 0 or len(straight) == 0:
+            ctx.fail(f'mixed-cells-witness:{name}', 'the witness mesh does not mix distorted and rectangular cells', desc)
+            continue
+        mixed = np.ravel(np.column_stack([straight[:min(len(straight), len(distorted))], distorted[:min(len(straight), len(distorted))]])).astype(np.int32)
+        for tag, tind in (('None', None), ('mixed', mixed), ('reversed', np.arange(nt - 1, -1, -1).astype(np.int32))):
+            ctx.count(('mixed-cells', name, tag), nontrivial=True)
+            ctx.hist('mixed_cells_witness', f'{name}:tind={tag}')
+            nc = nt if tind is None else len(tind)
+            Xp = np.broadcast_to(X[:, None, :], (dim, nc, X.shape[1])).copy()
+            d2 = dict(desc, tind=None if tind is None else tind.tolist(), points_per_cell=int(X.shape[1]))
+            try:
+                x = mp.F(Xp, tind=tind)
+                Xb = mp.invF(x, tind=tind)
+            except Exception as e:  # noqa: BLE001
+                ctx.fail(f'mixed-cells-round-trip:{name}', f'invF(F(X)) on a mesh mixing rectangular and distorted cells raises {type(e).__name__}: {e}', d2)
+                continue
+            err = np.abs(Xb - Xp).max(axis=(0, 2))
+            c = int(np.argmax(err))
+            _check(ctx, 'round_trip', f'mixed-cells-round-trip:{name}', err.max(),
+                   dict(d2, worst_cell=int(c if tind is None else tind[c]), X=Xp[:, c].tolist(), invF_of_F_X=Xb[:, c].tolist()))
+        # the reference points of the facet bases (invF of the facet map in the cell of each side) reproduce the physical points
+        for side in (0, 1):
+            try:
+                fb = fe.InteriorFacetBasis(m, elem, side=side, intorder=3)
+                xg = np.asarray(fb.global_coordinates())
+                xi = np.array([np.asarray(fb.interpolate(m.p[i].copy())) for i in range(dim)])
+            except Exception as e:  # noqa: BLE001
+                ctx.fail(f'mixed-cells-facet-points:{name}', f'InteriorFacetBasis(side={side}) raises {type(e).__name__}: {e}', desc)
+                continue
+            ctx.count(('mixed-cells-facets', name, side), nontrivial=True)
+            err = np.abs(xi - xg).max(axis=(0, 2))
+            f = int(np.argmax(err))
+            _check(ctx, 'facet_map', f'mixed-cells-facet-points:{name}', err.max(),
+                   dict(desc, side=side, facet=int(fb.find[f]), cells_of_facet=m.f2t[:, fb.find[f]].tolist(),
+                        physical_points=xg[:, f].tolist(), F_at_the_reference_points_of_the_basis=xi[:, f].tolist()))
+
+
 def run(ctx, rng):
     import warnings
     from skfem.mapping import MappingAffine, MappingIsoparametric
     STAT.clear()
     with warnings.catch_warnings():
         warnings.simplefilter('ignore')
+        try:
+            mixed_cells_witness(ctx)
+        except Exception as e:  # noqa: BLE001
+            import traceback
+            ctx.fail('mixed-cells-witness:exception', f'{type(e).__name__}: {e}', {'traceback': traceback.format_exc()[-1500:]})
         allm = []
         for rep in range(ctx.n(3, 8)):
             allm += meshes(ctx, rng)
